@@ -211,6 +211,14 @@ def d5_dtype(ctx, RA, step, roles, appenders):
                'asraggedarray converts the first item with the requested dtype', detail='first item not converted with dtype')
     dd = [v for v, st in defs_of(f.node, 'dtype')]
     ok = any(isinstance(v, ast.Attribute) and v.attr == 'dtype' for v in dd)
+    if not ok:
+        # or: the values array is created with dtype=<first item>.dtype directly
+        asarr = ctx.repo.func('array.asarray')
+        for n_, cal in ctx.E.callees(f):
+            if cal is asarr and isinstance(n_, ast.Call):
+                a_, d_ = get_arg(n_, None, 'array'), get_arg(n_, None, 'dtype')
+                if isinstance(d_, ast.Attribute) and d_.attr == 'dtype' and a_ is not None and norm(d_.value) == norm(a_):
+                    ok = True
     ctx.decide(ok, 'R-FLOW', 'D5', f, None, 'dtype-from-first', 'the values dtype is fixed by the (converted) first item', detail='dtype not bound to the first item')
     arr_app = [a for a in appenders if a.cls is not None and a.cls.name == 'Array']
     d3_checker(ctx, ctx.repo.cls('Array'), arr_app)
